@@ -182,12 +182,20 @@ def lean_imports_closure(module):
 def prop_theorems(pid):
     path = os.path.join(LEAN, "BigtoolsModel", "Props", f"{pid}.lean")
     src = strip_comments(open(path, encoding="utf-8").read())
-    ns = None
-    m = re.search(r"^namespace\s+([\w.]+)", src, re.M)
-    if m:
-        ns = m.group(1)
-    names = re.findall(r"^theorem\s+([\w.']+)", src, re.M)
-    return [(f"{ns}.{n}" if ns else n) for n in names]
+    out, stack = [], []
+    for line in src.splitlines():
+        m = re.match(r"^namespace\s+([\w.]+)", line)
+        if m:
+            stack.append(m.group(1))
+            continue
+        m = re.match(r"^end\s+([\w.]+)", line)
+        if m and stack and stack[-1] == m.group(1):
+            stack.pop()
+            continue
+        m = re.match(r"^theorem\s+([\w.']+)", line)
+        if m:
+            out.append(".".join(stack + [m.group(1)]))
+    return out
 
 
 def proof_status(pid, thorough=False):
@@ -548,12 +556,23 @@ class Prop:
         return False
 
     def shrink_lines(self, case):
-        return [i for i, l in enumerate(case.lines) if l.split(" ")[0] in self.removable]
+        idx = [i for i, l in enumerate(case.lines) if l.split(" ")[0] in self.removable]
+        # never empty the input itself: an empty input is a different case class
+        for tag in ("V", "E", "MV"):
+            mine = [i for i in idx if case.lines[i].split(" ")[0] == tag]
+            if len(mine) == 1:
+                idx.remove(mine[0])
+        return idx
 
     def extra_checks(self, rep, tier, rng, workdir):
         """Hook for checks that do not fit the case protocol (CLI runs, Python API). Returns nothing;
         reports through rep."""
         return
+
+
+def reason_key(r):
+    """failure kind: the reason with numbers / hex abstracted, cut at the first detail"""
+    return re.sub(r"[0-9a-f]{6,}|\d+", "N", r.split(":")[0])[:48]
 
 
 def shrink(prop, case, still_fails, workdir, budget=12):
@@ -596,7 +615,15 @@ def run_differential(prop, tier, seed, replay=None):
     workdir = os.path.join(BUILD, "work", f"{pid}_{tier}_{os.getpid()}")
     shutil.rmtree(workdir, ignore_errors=True)
     os.makedirs(workdir)
+    try:
+        import extract_consts
+        failed_consts, consts_changed = extract_consts.main()
+    except Exception as e:                      # the extractor itself must never decide a verdict
+        failed_consts, consts_changed = ["extractor crashed: " + str(e)[:100]], False
+    rep.coverage["extraction_failed"] = failed_consts
+    rep.coverage["constants_changed_since_last_run"] = consts_changed
     proof = proof_status(pid, thorough=(tier == "thorough"))
+    rep.coverage["phase_s"] = {"proof": round(time.time() - rep.t0, 1)}
     okb, blog = build_harness()
     if okb and prop.needs_repo_bins:
         okb, blog = build_repo_bins(prop.needs_repo_bins if isinstance(prop.needs_repo_bins, tuple) else ("bigtools",))
@@ -622,7 +649,7 @@ def run_differential(prop, tier, seed, replay=None):
     def judge(batch, sub):
         """-> {id: (impl_lines, model_lines, mismatch, oracle_reason)}"""
         wd = os.path.join(workdir, sub)
-        impl = run_impl(batch, wd, timeout=prop.impl_timeout)
+        impl = run_impl(batch, wd, timeout=prop.impl_timeout if sub == "main" else min(prop.impl_timeout, 6))
         extra = {c.id: prop.model_extra(c, impl.get(c.id, [])) for c in batch}
         try:
             model = run_model(batch, wd, extra)
@@ -634,7 +661,9 @@ def run_differential(prop, tier, seed, replay=None):
             out[c.id] = (il, ml, prop.compare(c, il, ml), prop.oracle(c, il))
         return out
 
+    rep.coverage["phase_s"]["build+generate"] = round(time.time() - rep.t0, 1)
     verdicts = judge(cases, "main")
+    rep.coverage["phase_s"]["main_run"] = round(time.time() - rep.t0, 1)
     failing, disagreeing = [], []
     for c in cases:
         il, ml, mm, orc = verdicts[c.id]
@@ -656,7 +685,7 @@ def run_differential(prop, tier, seed, replay=None):
     # one representative per kind of failure (digits abstracted), smallest case first
     reps, seen_keys = [], set()
     for c, orc in sorted(failing, key=lambda x: len(x[0].lines)):
-        k0 = c.kind + ":" + re.sub(r"[0-9a-f]{6,}|\d+", "N", orc)[:60]
+        k0 = c.kind + ":" + reason_key(orc)
         if k0 not in seen_keys:
             seen_keys.add(k0)
             reps.append((c, orc))
@@ -664,9 +693,9 @@ def run_differential(prop, tier, seed, replay=None):
         if len(reported) >= prop.max_reported:
             break
 
-        def still(cands, _c=c):
+        def still(cands, _c=c, _orc=orc):
             v = judge(cands, "shrink")
-            return [bool(v[x.id][3]) for x in cands]
+            return [bool(v[x.id][3]) and reason_key(v[x.id][3]) == reason_key(_orc) for x in cands]
         small = shrink(prop, c, still, workdir) if not replay else c
         v = judge([small], "final")[small.id]
         reason = v[3] or orc
@@ -679,7 +708,7 @@ def run_differential(prop, tier, seed, replay=None):
         if hit:
             rep.known_finding(hit.get("what", hit.get("id", "")))
             continue
-        key = re.sub(r"\d+", "N", reason)[:80]
+        key = reason_key(reason)
         if key in reported:
             continue
         reported[key] = True
@@ -705,7 +734,9 @@ def run_differential(prop, tier, seed, replay=None):
                       "# implementation answered:\n" + "".join(f"#   {l}\n" for l in v[0][:60]) +
                       "# model answered:\n" + "".join(f"#   {l}\n" for l in v[1][:60]),
                       "no-failing-input-found")
+    rep.coverage["phase_s"]["classify+shrink"] = round(time.time() - rep.t0, 1)
     prop.extra_checks(rep, tier, rng.fork("extra"), workdir)
+    rep.coverage["phase_s"]["extra"] = round(time.time() - rep.t0, 1)
     if not proof["ok"] and not rep.violations:
         rep.violation("proof_obligation.txt",
                       "Proof obligations of Props/%s.lean no longer check:\n%s\n" % (pid, "\n".join(proof["problems"])) +
